@@ -153,44 +153,88 @@ func asciiLowerHelper(f *ssa.Function) (string, bool) {
 			return
 		}
 		stores++
-		add, ok := st.Val.(*ssa.BinOp)
-		if !ok || add.Op != token.ADD {
-			okAll, why = false, "stored value is not old + const"
+		// exact, per byte: with c the byte read at the same position, the value
+		// stored under the store's guard G(c) is lower(c), and a byte that is
+		// not stored to (not G(c)) is not an upper-case ASCII letter — decided
+		// as Boolean functions of the eight bits of c
+		var old *ssa.UnOp
+		var find func(v ssa.Value, depth int)
+		find = func(v ssa.Value, depth int) {
+			if depth > 8 || old != nil {
+				return
+			}
+			switch x := v.(type) {
+			case *ssa.UnOp:
+				if oa, isIA := x.X.(*ssa.IndexAddr); isIA && x.Op == token.MUL && oa.X == ssa.Value(buf) && oa.Index == ia.Index {
+					old = x
+					return
+				}
+				find(x.X, depth+1)
+			case *ssa.BinOp:
+				find(x.X, depth+1)
+				find(x.Y, depth+1)
+			case *ssa.Convert:
+				find(x.X, depth+1)
+			}
+		}
+		find(st.Val, 0)
+		if old == nil {
+			okAll, why = false, "the stored value is not computed from the byte at the same position"
 			return
 		}
-		k, isK := core.ConstInt(add.Y)
-		old, isLd := add.X.(*ssa.UnOp)
-		if !isK || k != 'a'-'A' || !isLd || old.Op != token.MUL {
-			okAll, why = false, "stored value is not b[i] + ('a'-'A')"
+		m := boolfn.New()
+		ev := &boolfn.Eval{M: m}
+		cv := ev.IntInput(0, 8, false)
+		env := map[ssa.Value]boolfn.Val{old: cv}
+		val, err := ev.Expr(st.Val, env)
+		if err != nil || val.Kind != boolfn.KBits || len(val.Bits) != 8 {
+			okAll, why = false, sprintf("the stored value is outside the expression grammar: %v", err)
 			return
 		}
-		oa, ok := old.X.(*ssa.IndexAddr)
-		if !ok || oa.X != ssa.Value(buf) || oa.Index != ia.Index {
-			okAll, why = false, "the byte read is not the byte written"
-			return
-		}
-		ge, le := false, false
-		for _, g := range core.GuardsOf(st) {
-			b, ok := g.Cond.(*ssa.BinOp)
-			if !ok || b.X != ssa.Value(old) {
-				continue
+		guard := 1
+		for _, g := range core.Facts(f).At(st.Block()) {
+			gv, err := ev.Expr(g.Cond, env)
+			if err != nil || gv.Kind != boolfn.KBits || len(gv.Bits) != 1 {
+				continue // a condition that does not speak about c (the loop test)
 			}
-			kk, _ := core.ConstInt(b.Y)
-			if b.Op == token.GEQ && g.Truth && kk == 'A' {
-				ge = true
-			}
-			if b.Op == token.LEQ && g.Truth && kk == 'Z' {
-				le = true
-			}
-			if b.Op == token.GTR && g.Truth && kk == 'A'-1 {
-				ge = true
-			}
-			if b.Op == token.LSS && g.Truth && kk == 'Z'+1 {
-				le = true
+			if g.Truth {
+				guard = m.And(guard, gv.Bits[0])
+			} else {
+				guard = m.And(guard, m.Not(gv.Bits[0]))
 			}
 		}
-		if !ge || !le {
-			okAll, why = false, "the store is not guarded by 'A' <= b[i] <= 'Z'"
+		// upper(c): 'A' <= c <= 'Z'
+		upper := 0
+		for ch := int64('A'); ch <= 'Z'; ch++ {
+			eq := 1
+			for b := 0; b < 8; b++ {
+				bit := cv.Bits[b]
+				if (ch>>uint(b))&1 == 0 {
+					bit = m.Not(bit)
+				}
+				eq = m.And(eq, bit)
+			}
+			upper = m.Or(upper, eq)
+		}
+		// lower(c) bit by bit: c with bit 5 set when upper(c)
+		bad := 0
+		for b := 0; b < 8; b++ {
+			want := cv.Bits[b]
+			if b == 5 {
+				want = m.Or(cv.Bits[b], upper)
+			}
+			bad = m.Or(bad, m.And(guard, m.Xor(val.Bits[b], want)))
+		}
+		bad = m.Or(bad, m.And(m.Not(guard), upper))
+		if bad != 0 {
+			w := m.Witness(bad)
+			var ch int64
+			for i := 0; i < 8; i++ {
+				if w[i] {
+					ch |= 1 << uint(7-i)
+				}
+			}
+			okAll, why = false, sprintf("the per-byte transformation differs from ASCII lowering at byte 0x%02x (%q)", ch, rune(ch))
 		}
 	})
 	if stores == 0 {
@@ -602,13 +646,21 @@ func arpaV6FullScan(c *Ctx, prop string, npos int64) {
 					}
 					ncall++
 					okLen := false
-					for _, gd := range core.GuardsOf(ci) {
+					// `len(x) == K` holds on every path to the call: as a true `==`, a
+					// false `!=`, with the constant on either side
+					for _, gd := range core.Facts(g).At(ci.Block()) {
 						cond, truth := core.StripNot(gd.Cond, gd.Truth)
-						if b, ok := cond.(*ssa.BinOp); ok && b.Op == token.EQL && truth {
-							if k, isK := core.ConstInt(b.Y); isK && okL && k == maxLen {
-								if lc, ok := b.X.(*ssa.Call); ok && core.CalleeName(&lc.Call) == "builtin.len" && lc.Call.Args[0] == ci.Common().Args[0] {
-									okLen = true
-								}
+						b, ok := cond.(*ssa.BinOp)
+						if !ok || (b.Op != token.EQL && b.Op != token.NEQ) || (b.Op == token.EQL) != truth {
+							continue
+						}
+						x, y := b.X, b.Y
+						if _, isK := core.ConstInt(x); isK {
+							x, y = y, x
+						}
+						if k, isK := core.ConstInt(y); isK && okL && k == maxLen {
+							if lc, ok := x.(*ssa.Call); ok && core.CalleeName(&lc.Call) == "builtin.len" && lc.Call.Args[0] == ci.Common().Args[0] {
+								okLen = true
 							}
 						}
 					}
